@@ -84,6 +84,27 @@ inline int     modi(int64_t v, int m)
     return static_cast<int>(r);
 }
 
+inline void normalize_op(Op& o, int uni)
+{
+
+    o.code    = modi(o.code, O_COUNT);
+    o.k       = modi(o.k, uni);
+    o.allow   = 1 + modi(o.allow - 1, 3);
+    o.ttl_ms  = clampi(o.ttl_ms, 0, kMaxTtlMs);
+    o.flavour = modi(o.flavour, 4);
+    if (o.elems.size() > static_cast<size_t>(kMaxElems))
+        o.elems.resize(kMaxElems);
+    for (auto& e : o.elems)
+    {
+        e.k      = modi(e.k, uni);
+        e.ttl_ms = clampi(e.ttl_ms, 0, kMaxTtlMs);
+    }
+    o.dt_ns = clampi(o.dt_ns, 0, kMaxAdvNs);
+    o.j     = modi(o.j, 64);
+    o.off   = static_cast<int>(clampi(o.off, -1, 1));
+    o.mode  = modi(o.mode, 3);
+    }
+
 // make every field legal (total: never rejects)
 inline void normalize(Case& c)
 {
@@ -102,24 +123,45 @@ inline void normalize(Case& c)
     g.ratio_num = static_cast<int>(clampi(g.ratio_num, 0, g.ratio_den));
     c.uni       = static_cast<int>(clampi(c.uni, 1, vv::kMaxKeys));
     for (auto& o : c.ops)
+        normalize_op(o, c.uni);
+}
+
+inline std::string op_to_text(const Op& o)
+{
+    std::ostringstream s;
+
+    if (o.splice)
+        s << "~";
+    s << op_name(o.code);
+    switch (o.code)
     {
-        o.code    = modi(o.code, O_COUNT);
-        o.k       = modi(o.k, c.uni);
-        o.allow   = 1 + modi(o.allow - 1, 3);
-        o.ttl_ms  = clampi(o.ttl_ms, 0, kMaxTtlMs);
-        o.flavour = modi(o.flavour, 4);
-        if (o.elems.size() > static_cast<size_t>(kMaxElems))
-            o.elems.resize(kMaxElems);
-        for (auto& e : o.elems)
-        {
-            e.k      = modi(e.k, c.uni);
-            e.ttl_ms = clampi(e.ttl_ms, 0, kMaxTtlMs);
-        }
-        o.dt_ns = clampi(o.dt_ns, 0, kMaxAdvNs);
-        o.j     = modi(o.j, 64);
-        o.off   = static_cast<int>(clampi(o.off, -1, 1));
-        o.mode  = modi(o.mode, 3);
+        case O_INS: s << " " << o.k << " " << o.allow << " " << o.ttl_ms; break;
+        case O_INSR:
+            s << " " << o.allow << " " << o.flavour << " " << o.elems.size();
+            for (auto& e : o.elems)
+                s << " " << e.k << " " << e.ttl_ms;
+            break;
+        case O_ERA: s << " " << o.k; break;
+        case O_ERAR:
+            s << " " << o.flavour << " " << o.elems.size();
+            for (auto& e : o.elems)
+                s << " " << e.k;
+            break;
+        case O_FIND:
+        case O_FINDUC: s << " " << o.k << " " << (o.peek ? 1 : 0); break;
+        case O_FINDR:
+        case O_FINDRF:
+            s << " " << (o.peek ? 1 : 0) << " " << o.flavour << " " << o.elems.size();
+            for (auto& e : o.elems)
+                s << " " << e.k;
+            break;
+        case O_UTTL: s << " " << o.ttl_ms; break;
+        case O_ADV: s << " " << o.dt_ns; break;
+        case O_ADVTO: s << " " << o.j << " " << o.off; break;
+        case O_SCAN: s << " " << o.mode; break;
+        default: break;
     }
+        return s.str();
 }
 
 inline std::string to_text(const Case& c)
@@ -138,41 +180,80 @@ inline std::string to_text(const Case& c)
     s << "seed " << g.seed << "\n";
     s << "--\n";
     for (const auto& o : c.ops)
-    {
-        if (o.splice)
-            s << "~";
-        s << op_name(o.code);
-        switch (o.code)
-        {
-            case O_INS: s << " " << o.k << " " << o.allow << " " << o.ttl_ms; break;
-            case O_INSR:
-                s << " " << o.allow << " " << o.flavour << " " << o.elems.size();
-                for (auto& e : o.elems)
-                    s << " " << e.k << " " << e.ttl_ms;
-                break;
-            case O_ERA: s << " " << o.k; break;
-            case O_ERAR:
-                s << " " << o.flavour << " " << o.elems.size();
-                for (auto& e : o.elems)
-                    s << " " << e.k;
-                break;
-            case O_FIND:
-            case O_FINDUC: s << " " << o.k << " " << (o.peek ? 1 : 0); break;
-            case O_FINDR:
-            case O_FINDRF:
-                s << " " << (o.peek ? 1 : 0) << " " << o.flavour << " " << o.elems.size();
-                for (auto& e : o.elems)
-                    s << " " << e.k;
-                break;
-            case O_UTTL: s << " " << o.ttl_ms; break;
-            case O_ADV: s << " " << o.dt_ns; break;
-            case O_ADVTO: s << " " << o.j << " " << o.off; break;
-            case O_SCAN: s << " " << o.mode; break;
-            default: break;
-        }
-        s << "\n";
-    }
+        s << op_to_text(o) << "\n";
     return s.str();
+}
+
+// parses one operation line ("ins 2 3 5", "~find 1 0", ...); false if the line names no operation
+inline bool op_from_line(const std::string& line, Op& out)
+{
+    std::istringstream ls(line);
+    std::string        w;
+    ls >> w;
+        Op o;
+    if (!w.empty() && w[0] == '~')
+    {
+        o.splice = true;
+        w.erase(0, 1);
+    }
+    int code = -1;
+    for (int i = 0; i < O_COUNT; ++i)
+        if (w == op_name(i))
+            code = i;
+    if (code < 0)
+        return false;
+    o.code = code;
+    size_t n = 0;
+    int    p = 0;
+    switch (code)
+    {
+        case O_INS: ls >> o.k >> o.allow >> o.ttl_ms; break;
+        case O_INSR:
+            ls >> o.allow >> o.flavour >> n;
+            for (size_t i = 0; i < n && i < 64 && ls; ++i)
+            {
+                Elem e;
+                ls >> e.k >> e.ttl_ms;
+                if (ls)
+                    o.elems.push_back(e);
+            }
+            break;
+        case O_ERA: ls >> o.k; break;
+        case O_ERAR:
+            ls >> o.flavour >> n;
+            for (size_t i = 0; i < n && i < 64 && ls; ++i)
+            {
+                Elem e;
+                ls >> e.k;
+                if (ls)
+                    o.elems.push_back(e);
+            }
+            break;
+        case O_FIND:
+        case O_FINDUC:
+            ls >> o.k >> p;
+            o.peek = p != 0;
+            break;
+        case O_FINDR:
+        case O_FINDRF:
+            ls >> p >> o.flavour >> n;
+            o.peek = p != 0;
+            for (size_t i = 0; i < n && i < 64 && ls; ++i)
+            {
+                Elem e;
+                ls >> e.k;
+                if (ls)
+                    o.elems.push_back(e);
+            }
+            break;
+        case O_UTTL: ls >> o.ttl_ms; break;
+        case O_ADV: ls >> o.dt_ns; break;
+        case O_ADVTO: ls >> o.j >> o.off; break;
+        case O_SCAN: ls >> o.mode; break;
+        default: break;
+    }
+    out = std::move(o);
+    return true;
 }
 
 // tolerant parser: unknown lines are ignored, missing numbers read as 0; result is normalised
@@ -233,67 +314,8 @@ inline bool from_text(const std::string& text, Case& c)
             continue;
         }
         Op o;
-        if (!w.empty() && w[0] == '~')
-        {
-            o.splice = true;
-            w.erase(0, 1);
-        }
-        int code = -1;
-        for (int i = 0; i < O_COUNT; ++i)
-            if (w == op_name(i))
-                code = i;
-        if (code < 0)
+        if (!op_from_line(line, o))
             continue;
-        o.code = code;
-        size_t n = 0;
-        int    p = 0;
-        switch (code)
-        {
-            case O_INS: ls >> o.k >> o.allow >> o.ttl_ms; break;
-            case O_INSR:
-                ls >> o.allow >> o.flavour >> n;
-                for (size_t i = 0; i < n && i < 64 && ls; ++i)
-                {
-                    Elem e;
-                    ls >> e.k >> e.ttl_ms;
-                    if (ls)
-                        o.elems.push_back(e);
-                }
-                break;
-            case O_ERA: ls >> o.k; break;
-            case O_ERAR:
-                ls >> o.flavour >> n;
-                for (size_t i = 0; i < n && i < 64 && ls; ++i)
-                {
-                    Elem e;
-                    ls >> e.k;
-                    if (ls)
-                        o.elems.push_back(e);
-                }
-                break;
-            case O_FIND:
-            case O_FINDUC:
-                ls >> o.k >> p;
-                o.peek = p != 0;
-                break;
-            case O_FINDR:
-            case O_FINDRF:
-                ls >> p >> o.flavour >> n;
-                o.peek = p != 0;
-                for (size_t i = 0; i < n && i < 64 && ls; ++i)
-                {
-                    Elem e;
-                    ls >> e.k;
-                    if (ls)
-                        o.elems.push_back(e);
-                }
-                break;
-            case O_UTTL: ls >> o.ttl_ms; break;
-            case O_ADV: ls >> o.dt_ns; break;
-            case O_ADVTO: ls >> o.j >> o.off; break;
-            case O_SCAN: ls >> o.mode; break;
-            default: break;
-        }
         c.ops.push_back(std::move(o));
     }
     if (!saw_kind)
